@@ -43,7 +43,7 @@ def runs(draw, tier):
          "inspect_after_clear": draw(st.booleans()), "third_run_no_clear": draw(st.booleans()), "decoy_shared_metrics": draw(st.booleans()),
          "third_from_last": draw(st.booleans()), "second_len": draw(st.sampled_from(["same", "fixed3", "same_range", "same_range"])),
          "aborted_first": draw(st.integers(0, 2)) == 0, "abort_at": draw(st.integers(0, 3)), "abort_skip": draw(st.integers(0, 1))}
-    if draw(st.integers(0, 15)) == 0:
+    if draw(st.integers(0, 11)) == 0:
         # long time axis: histories of 70 to 300 evaluations (period 1 in half of these cases), with and without a log file
         c["E"] = c["se"] + draw(st.sampled_from([70, 262, 300]))
         c["stop_at"] = None
@@ -52,6 +52,10 @@ def runs(draw, tier):
             c["obs_period"] = 1 if c["obs_period"] is not None else None
         if c["saver"] and draw(st.booleans()):
             c["saver"] = None
+        if draw(st.integers(0, 3)) > 0:
+            c["log"] = True                                   # long histories mostly with a log file
+            if c["obs_period"] is None and draw(st.booleans()):
+                c["obs_period"] = 1
     return c
 
 
